@@ -153,6 +153,9 @@ pub fn build(thorough: bool, only: Option<&str>) -> Vec<Arc<Scenario>> {
 					out.push(mk("async-2", v2, Variant::Plain, init, &[a, b], 2, &[vec!["F1", "F0"], vec!["R0", "R0"]]));
 					// versions taken by an issuer thread while the first ticket may already execute
 					out.push(mk("async-issuer", v2, Variant::Plain, init, &[a, b], 0, &[vec!["B0", "B1"], vec!["F0"], vec!["F1"]]));
+					// ... and with a complete operation on the key between the two issues (the lock-map
+					// entry may be garbage-collected between them while ticket 0 still holds its lock)
+					out.push(mk("async-issuer", v2, Variant::Plain, init, &[a, b], 0, &[vec!["B0", "R0", "B1"], vec!["F0"], vec!["F1"]]));
 				}
 			}
 			let triples: Vec<[&str; 3]> = if thorough {
